@@ -1,5 +1,18 @@
-//! Phase-output half of C12 (filled in with the E2 engine).
+//! Phase-output half of C12: every fault position of the file-system calls a real detect/build
+//! process makes beneath its world, × errno ∈ {EIO, EACCES, ENOSPC}. The phase must exit
+//! non-zero or leave exactly the outputs of the fault-free run.
+
+use super::c05::{self, DescKind, InputKind, Scenario};
+use super::common::{self, E2Summary, arg_after};
+use super::script::{BuildKind, DetectKind};
+use crate::e1::faults::ERRNOS;
+use crate::pool::{self, PoolError};
+use crate::rng::{Rng, run_seed};
+use crate::snap::{self, Snap};
+use serde::{Deserialize, Serialize};
+use serde_json::json;
 use std::collections::{BTreeMap, BTreeSet};
+use std::path::Path;
 
 #[derive(Default)]
 pub struct PhaseFaults {
@@ -15,6 +28,266 @@ pub struct PhaseFaults {
     pub violations: usize,
 }
 
-pub fn run_phase_faults(_tier: &str) -> PhaseFaults {
-    PhaseFaults::default()
+#[derive(Clone, Debug, Serialize, Deserialize)]
+pub struct PhaseFaultReplay {
+    pub engine: String,
+    pub property: String,
+    pub seed: u64,
+    pub index: u64,
+    pub scenario: Scenario,
+    pub k: i64,
+    pub errno: i32,
+    pub faulted_call: String,
+    pub signature: String,
+    pub detail: Vec<String>,
+}
+
+fn gen_scenario(seed: u64) -> Scenario {
+    // a well-formed invocation whose phase succeeds and writes outputs
+    let mut s = c05::generate(seed);
+    let mut r = Rng::sub(seed, "c12-phase");
+    s.desc = DescKind::Supported;
+    s.missing_env.clear();
+    s.plan_in = InputKind::Valid;
+    if s.store_in == InputKind::Malformed {
+        s.store_in = InputKind::Valid;
+    }
+    s.arg0 = if s.build_phase { "build".into() } else { "detect".into() };
+    s.nargs = if s.build_phase { 3 } else { 2 };
+    s.platform_present = true;
+    s.build.kind = BuildKind::Ok;
+    if s.build.launch.is_none() && r.bool() {
+        s.build.launch = Some(c05::gen_launch(&mut r));
+    }
+    if !s.build_phase && !matches!(s.detect, DetectKind::PassPlan(_)) {
+        s.detect = DetectKind::PassPlan(c05::gen_plan(&mut r));
+    }
+    s
+}
+
+fn read_stats(path: &Path) -> (i64, bool, String) {
+    let text = std::fs::read_to_string(path).unwrap_or_default();
+    let get = |k: &str| {
+        text.lines()
+            .find_map(|l| l.strip_prefix(&format!("{k}=")))
+            .map(str::to_string)
+            .unwrap_or_default()
+    };
+    (get("matched").parse().unwrap_or(0), get("fired") == "1", get("fired_call"))
+}
+
+fn observable(s: &Snap) -> Snap {
+    // the world the lifecycle looks at afterwards
+    Snap {
+        nodes: s.nodes.iter().map(|(k, v)| (k.clone(), v.clone())).collect(),
+    }
+}
+
+struct One {
+    status: i32,
+    tree: Snap,
+    n: i64,
+    fired: bool,
+    call: String,
+}
+
+fn run_one(s: &Scenario, root: &Path, side: &Path, mode: &str) -> Result<One, String> {
+    let stats = side.join("stats.txt");
+    let _ = std::fs::remove_file(&stats);
+    let prog = if s.build_phase { "build" } else { "detect" };
+    let plan = format!(
+        "prog={prog};prefix={};{mode};rdseed=12345;hashkey=777;stats={}",
+        root.display(),
+        stats.display()
+    );
+    let x = c05::execute_with(s, root, Some(plan), Some(&side.join("markers")))?;
+    let (n, fired, call) = read_stats(&stats);
+    Ok(One {
+        status: x.result.status(),
+        tree: observable(&x.after),
+        n,
+        fired,
+        call,
+    })
+}
+
+#[derive(Default, Serialize, Deserialize)]
+struct WorkerOut {
+    sum: E2Summary,
+    executions: u64,
+    fired: u64,
+    fired_by_call: BTreeMap<String, u64>,
+    outcome_err: u64,
+    outcome_ok_same: u64,
+    violations: Vec<PhaseFaultReplay>,
+}
+
+fn enumerate(
+    s: &Scenario,
+    root: &Path,
+    side: &Path,
+    out: &mut WorkerOut,
+    only: Option<(i64, i32)>,
+) -> Result<Option<(i64, i32, String, Vec<String>)>, String> {
+    let ok = run_one(s, root, side, "mode=count")?;
+    out.executions += 1;
+    if ok.status != 0 {
+        return Err(format!("fault-free phase run exits {}", ok.status));
+    }
+    for k in 1..=ok.n {
+        for (errno, name) in ERRNOS {
+            if let Some((ok_k, ok_e)) = only {
+                if ok_k != k || ok_e != errno {
+                    continue;
+                }
+            }
+            let f = run_one(s, root, side, &format!("mode=error;k={k};errno={errno}"))?;
+            out.executions += 1;
+            if !f.fired {
+                return Err(format!("fault {k}/{} did not fire in the phase process", ok.n));
+            }
+            out.fired += 1;
+            *out.fired_by_call.entry(f.call.clone()).or_insert(0) += 1;
+            out.sum.cells.insert(format!(
+                "phase-{}|{}|{name}",
+                if s.build_phase { "build" } else { "detect" },
+                f.call
+            ));
+            if f.status != 0 {
+                out.outcome_err += 1;
+            } else if f.tree == ok.tree {
+                out.outcome_ok_same += 1;
+            } else {
+                let mut detail = vec![format!(
+                    "{} phase exited 0 although its file-system call #{k} of {} ({}) failed with {name}; outputs differ from the fault-free run:",
+                    if s.build_phase { "build" } else { "detect" },
+                    ok.n,
+                    f.call
+                )];
+                detail.extend(snap::diff(&ok.tree, &f.tree, &|_, _, _| None, &[]).into_iter().take(8));
+                return Ok(Some((k, errno, f.call, detail)));
+            }
+        }
+    }
+    Ok(None)
+}
+
+pub fn worker(args: &[String]) -> i32 {
+    let scratch = common::worker_scratch(&format!("c12p-{}", arg_after(args, "--id").unwrap_or_else(|| "x".into())));
+    let root = scratch.join("w");
+    let side = scratch.join("side");
+    let _ = std::fs::create_dir_all(&side);
+    let mut out = WorkerOut::default();
+    if let Some(file) = arg_after(args, "--replay") {
+        let text = std::fs::read_to_string(&file).unwrap_or_else(|e| common::harness_fail(&e.to_string()));
+        let rep: PhaseFaultReplay = serde_json::from_str(&text).unwrap_or_else(|e| common::harness_fail(&e.to_string()));
+        let r = enumerate(&rep.scenario, &root, &side, &mut out, Some((rep.k, rep.errno)));
+        let reproduced = matches!(&r, Ok(Some((k, e, c, _))) if *k == rep.k && *e == rep.errno && *c == rep.faulted_call);
+        println!("RESULT {}", json!({"reproduced": reproduced, "detail": r.ok().flatten().map(|x| x.3)}));
+        let _ = snap::wipe(&scratch);
+        let _ = std::fs::remove_dir(&scratch);
+        return 0;
+    }
+    let from: u64 = arg_after(args, "--from").and_then(|s| s.parse().ok()).unwrap_or(0);
+    let to: u64 = arg_after(args, "--to").and_then(|s| s.parse().ok()).unwrap_or(0);
+    for i in from..to {
+        let seed = run_seed(crate::global_seed(), "e2-c12", i);
+        let s = gen_scenario(seed);
+        let before = out.executions;
+        match enumerate(&s, &root, &side, &mut out, None) {
+            Err(e) => out.sum.harness_errors.push(format!("phase scenario {i}: {e}")),
+            Ok(v) => {
+                out.sum.runs += 1;
+                if out.sum.samples.len() < 1 {
+                    out.sum.samples.push(json!({"index": i, "seed": seed,
+                        "phase": if s.build_phase {"build"} else {"detect"},
+                        "outputs": {"launch": s.build.launch.is_some(), "store": s.build.store.is_some(),
+                                    "build_sboms": s.build.build_sboms.len(), "launch_sboms": s.build.launch_sboms.len()},
+                        "executions": out.executions - before}));
+                }
+                if let Some((k, errno, call, detail)) = v {
+                    out.violations.push(PhaseFaultReplay {
+                        engine: "e2-c12".into(),
+                        property: "C12".into(),
+                        seed,
+                        index: i,
+                        scenario: s,
+                        k,
+                        errno,
+                        signature: format!("I-fault:phase:{call}"),
+                        faulted_call: call,
+                        detail,
+                    });
+                }
+            }
+        }
+    }
+    let _ = snap::wipe(&scratch);
+    let _ = std::fs::remove_dir(&scratch);
+    println!("RESULT {}", serde_json::to_string(&out).unwrap_or_default());
+    0
+}
+
+pub fn run_phase_faults(tier: &str) -> PhaseFaults {
+    let scenarios: u64 = std::env::var("VERIF_PHASE_RUNS")
+        .ok()
+        .and_then(|s| s.parse().ok())
+        .unwrap_or(if tier == "thorough" { 1_600 } else { 48 });
+    let mut argvs = Vec::new();
+    for (i, (from, to)) in pool::ranges(scenarios, pool::workers()).into_iter().enumerate() {
+        argvs.push(
+            ["worker", "e2-c12", "--from", &from.to_string(), "--to", &to.to_string(), "--id", &i.to_string()]
+                .iter()
+                .map(|s| (*s).to_string())
+                .collect(),
+        );
+    }
+    let results: Vec<WorkerOut> = match pool::run_workers(argvs, false) {
+        Ok(r) => r,
+        Err(PoolError::Harness(e)) => common::harness_fail(&e),
+    };
+    let mut pf = PhaseFaults::default();
+    let known = crate::known::Known::load();
+    let mut seen: Vec<String> = Vec::new();
+    for r in results {
+        if let Some(e) = r.sum.harness_errors.first() {
+            common::harness_fail(e);
+        }
+        pf.scenarios += r.sum.runs;
+        pf.executions += r.executions;
+        pf.fired += r.fired;
+        for (k, v) in r.fired_by_call {
+            *pf.fired_by_call.entry(k).or_insert(0) += v;
+        }
+        pf.outcome_err += r.outcome_err;
+        pf.outcome_ok_same += r.outcome_ok_same;
+        pf.cells.extend(r.sum.cells);
+        if pf.samples.is_empty() {
+            pf.samples.extend(r.sum.samples);
+        }
+        for v in r.violations {
+            if seen.contains(&v.signature) {
+                continue;
+            }
+            seen.push(v.signature.clone());
+            if let Some(f) = known.matches("C12", &v.signature) {
+                pf.lines.push(format!("KNOWN-FINDING: property=C12 {}", f.description));
+                continue;
+            }
+            let dir = pool::out_root().join("replays");
+            let _ = std::fs::create_dir_all(&dir);
+            let text = serde_json::to_string_pretty(&v).unwrap_or_default();
+            let path = dir.join(format!("C12-{:08x}.json", crate::rng::hash_str(&text) & 0xffff_ffff));
+            if let Err(e) = std::fs::write(&path, text + "\n") {
+                common::harness_fail(&format!("cannot write replay: {e}"));
+            }
+            pf.lines.push(format!("violation: signature={} k={} errno={}", v.signature, v.k, v.errno));
+            for d in &v.detail {
+                pf.lines.push(format!("    {d}"));
+            }
+            pf.lines.push(format!("VIOLATION property=C12 replay={}", path.display()));
+            pf.violations += 1;
+        }
+    }
+    pf
 }
